@@ -129,6 +129,8 @@ def run_suite(binary, driver, r, tier, seed, wdir):
         d = subprocess.run([driver], stdin=fin, stdout=fout, stderr=subprocess.PIPE, timeout=7200)
     if d.returncode != 0:
         return dict(error='driver failed: ' + d.stderr.decode()[-2000:])
+    if os.path.exists(wdir + '/infra.txt'):
+        return dict(error='infrastructure failure in the ' + r['suite'] + ' suite: ' + open(wdir + '/infra.txt').read()[:1500])
     req = open(wdir + '/req.txt').read().split('\n')
     imp = open(wdir + '/impl.txt').read().split('\n')
     mod = open(wdir + '/model.txt').read().split('\n')
